@@ -47,6 +47,32 @@ pub fn record(args: &Args) {
 	let mut lines = vec![];
 	for d in 0..domains {
 		let mut vals: Vec<Value> = vec![];
+		if d == 3 || d == 7 {
+			// a domain of numbers whose lexical, numeric and length orders all disagree, equal values under different
+			// spellings, 64-bit and double boundaries - bare, inside arrays and as member values; and of strings / keys
+			// whose byte, code-point, UTF-16 and length orders disagree
+			let nums = ["0", "-0", "0.0", "-0.0", "0e0", "1", "-1", "2", "9", "10", "-10", "1e1", "1E1", "10.0", "1.0e1", "2.5", "100", "99", "1e2",
+				"9007199254740992", "9007199254740993", "9223372036854775807", "9223372036854775808", "-9223372036854775808", "-9223372036854775809",
+				"18446744073709551615", "18446744073709551616", "1e400", "-1e400", "1e-400", "0.1", "0.10", "1.5", "15e-1"];
+			let strs = ["", "a", "b", "ab", "B", "\u{e9}", "\u{ffff}", "\u{10000}", "\u{e000}", "a\u{0}", "aa"];
+			for (i, n) in nums.iter().enumerate() {
+				let v = Value::Number(json_syntax::NumberBuf::new(n.as_bytes().into()).unwrap());
+				vals.push(match (d + i) % 4 {
+					0 | 1 => v,
+					2 => Value::Array(vec![v]),
+					_ => Value::Object(vec![json_syntax::object::Entry::new("n".into(), v)].into_iter().collect()),
+				});
+			}
+			for (i, s) in strs.iter().enumerate() {
+				vals.push(match (d + i) % 3 {
+					0 => Value::String((*s).into()),
+					1 => Value::Object(vec![json_syntax::object::Entry::new((*s).into(), Value::Null)].into_iter().collect()),
+					_ => Value::Array(vec![Value::String((*s).into()), Value::Null]),
+				});
+			}
+			rng.shuffle(&mut vals);
+			vals.truncate(size.max(45));
+		}
 		while vals.len() < size {
 			let base = if d % 2 == 0 { Value::Object(g.object(&mut rng, 1)) } else { g.value(&mut rng, 2) };
 			let near = g.near_copies(&mut rng, &base);
